@@ -31,5 +31,19 @@ func init() {
 	addExplanation("C17", "(R7) the fields parseRawOptions derives from the command line are read only after it ran (a parseRawOptions call dominates every call that transitively loads one), in all 11 commands; the interface / source flags' fields are written only by flag parsing.")
 	addExplanation("C18", "(R4, additions) every flag-bound options field (39) is written only by flag parsing; parsed IP flags and payload reach the filler on every path (C05.R3 always-applied clause).")
 	addExplanation("C19", "(R3, addition) the --live field is written only by flag parsing (the rescan interval is the written value).")
+	addExplanation("C02", "(R7) the generators hand over addresses and requests whose storage they never write again (freshness of handed-over values: created in the same iteration or never written in the loop).")
+	addExplanation("C06", "(R7) what the processors put on the result queue shares nothing with the decoder state they overwrite for the next frame (freshness rule).")
+	addExplanation("C13", "(R1, additions) stages hand over freshly built requests, frames and error carriers (freshness rule); no line reader lowers bufio.Scanner's 64 KiB limit.")
+	addExplanation("C01", "(R10) fillers keep nothing between calls (C07.R5) and exactly the configured number of probe workers is started (C08.R2 worker-count clause).")
+	addExplanation("C04", "(R7) range sizes and group elements stay in 64-bit integers or big.Int: no narrowing conversion and no product of two int64 variables in the iterator, its constructor and their helpers.")
+	addExplanation("C07", "(R4, addition) stage constructors store their integer parameters unchanged; (R5, addition) no mutable package-level state in the pipeline packages.")
+	addExplanation("C08", "(R7) the error drain of the engine caller logs every received error once and ends only when the engine closes its error channel.")
+	addExplanation("C09", "(R3, addition) no mutable package-level state in the probe package.")
+	addExplanation("C10", "(R4, additions) no mutable package-level state in the probe packages; transports, clients and TLS configurations set only the reviewed fields.")
+	addExplanation("C11", "(R2, addition) no line reader lowers bufio.Scanner's 64 KiB limit.")
+	addExplanation("C12", "(R2, addition) a WaitGroup kept in a struct field joins the goroutines that signal the same field; (R3, addition) the receive loop carries no state between iterations (C20.R1).")
+	addExplanation("C15", "(R6, addition) the folded window-prefix obligation must be present (a unit table is not modelled).")
+	addExplanation("C17", "(R7, addition) option parsing starts no goroutine.")
+	addExplanation("C18", "(R4, addition) option parsing starts no goroutine.")
 	addExplanation("C20", "(R3, closed classes) the transient class holds only would-block / timeout / interruption / reset, the fatal class only closed-or-broken-socket errors (oracle table in the rule); (R4) every ReadPacketData that delegates returns exactly its delegate's three results, and the rate-limit adapter declares no reader of its own.")
 }
